@@ -339,7 +339,7 @@ theorem fp_printed_whole (puny : Str → Str) (trie : SNode Str) (s : Bool) (g :
     (hpl : s = true → ∀ x, accHost (g.hostname.map (normHost puny fpOpts)) = some x → x ≠ [] →
       PlainHost (stripLangSubdomainsFromHostname isCountry x))
     (hg : InClassOf true g (lower u)) (r : Split)
-    (h : fingerprintUrlStringSplit puny id trie s u = .ok r) :
+    (h : fingerprintUrlStringSplit puny id trie s u = .ok (.inr r)) :
     fingerprintUrlString puny id trie s u = .ok (fpString r) ∧ r.scheme = [] ∧
     ∃ H : Str, r.netloc = bracket H ∧ '@' ∉ H ∧ '[' ∉ H ∧ ']' ∉ H ∧ '@' ∉ r.netloc ∧
       ((r.netloc = H ∧ ':' ∉ H) ∨ r.netloc = '[' :: (H ++ [']'])) ∧
@@ -350,6 +350,7 @@ theorem fp_printed_whole (puny : Str → Str) (trie : SNode Str) (s : Bool) (g :
     rfl
   have h' := h
   rw [fp_split_grammar puny trie s g u po hg hpo] at h'
+  replace h' := map_inr_ok h'
   obtain ⟨h1, host, hho, _, h2⟩ := fp_shape (stringEnv puny id trie) (stringEnv_acc puny trie) s _
     (g.record po) r hs (portVal_ok hpo) h'
   have hsafe := fingerprinted_host_safe puny trie s _ host (accHost_safe _ hs) hpl hho
@@ -367,8 +368,9 @@ theorem fp_printed_whole (puny : Str → Str) (trie : SNode Str) (s : Bool) (g :
 /-! ## non-vacuity -/
 
 example : (fingerprintUrlStringSplit id id SNode.empty false "HTTP://User:Pw@Shop.A.com:8080/P?x=1#Top".toList).toOption =
-      some { scheme := [], netloc := "shop.a.com".toList, path := "/p".toList, query := "x=1".toList,
-             fragment := some [] } ∧
+      some (.inr
+        { scheme := [], netloc := "shop.a.com".toList, path := "/p".toList, query := "x=1".toList,
+          fragment := some [] }) ∧
     tailOf { scheme := [], netloc := "shop.a.com".toList, path := "/p".toList, query := "x=1".toList,
              fragment := some [] } = "/p?x=1".toList ∧
     bracket "shop.a.com".toList = "shop.a.com".toList ∧ bracket "::1".toList = "[::1]".toList := by
